@@ -2,7 +2,10 @@ module verifharness
 
 go 1.24.0
 
-require github.com/lmorg/murex v0.0.0
+require (
+	github.com/lmorg/murex v0.0.0
+	gopkg.in/yaml.v3 v3.0.1
+)
 
 require (
 	github.com/clbanning/mxj/v2 v2.7.0 // indirect
@@ -25,7 +28,6 @@ require (
 	golang.org/x/image v0.35.0 // indirect
 	golang.org/x/sys v0.40.0 // indirect
 	golang.org/x/text v0.33.0 // indirect
-	gopkg.in/yaml.v3 v3.0.1 // indirect
 	modernc.org/libc v1.67.6 // indirect
 	modernc.org/mathutil v1.7.1 // indirect
 	modernc.org/memory v1.11.0 // indirect
